@@ -372,7 +372,7 @@ mod engine {
             match (prop, tier) {
                 ("C05", "thorough") => 100_000,
                 ("C05", _) => 4_000,
-                (_, "thorough") => 60_000,
+                (_, "thorough") => 30_000,
                 _ => 2_000,
             }
         }
